@@ -285,7 +285,7 @@ impl CompactionWorker {
                 "Compaction thread found an immutable memtable to compact. Proceeding with \
                 memtable compaction."
             );
-            CompactionWorker::compact_memtable(db_state, db_fields_guard);
+            CompactionWorker::compact_memtable(db_state, db_fields_guard, false);
             return;
         }
 
@@ -472,6 +472,7 @@ impl CompactionWorker {
     fn compact_memtable(
         db_state: &PortableDatabaseState,
         db_fields_guard: &mut MutexGuard<GuardedDbFields>,
+        is_table_compaction_running: bool,
     ) {
         assert!(db_fields_guard.maybe_immutable_memtable.is_some());
 
@@ -481,11 +482,20 @@ impl CompactionWorker {
         let verif_levels_before = crate::verif::dump_levels(&db_fields_guard.version_set);
         let base_version = db_fields_guard.version_set.get_current_version();
         let immutable_memtable = db_fields_guard.maybe_immutable_memtable.clone().unwrap();
+        // The outputs of a running table compaction are not part of any version yet, so a level
+        // below 0 cannot be checked against them: an output file spanning a key gap between the
+        // compaction's inputs would overlap a table placed into that gap one level down. Keep the
+        // new table at level 0 in that case.
+        let maybe_base_version = if is_table_compaction_running {
+            None
+        } else {
+            Some(&base_version)
+        };
         let write_table_result = DB::convert_memtable_to_file(
             db_state,
             db_fields_guard,
             Arc::clone(&immutable_memtable),
-            Some(&base_version),
+            maybe_base_version,
             &mut change_manifest,
         );
         db_fields_guard.version_set.release_version(base_version);
@@ -669,7 +679,11 @@ impl CompactionWorker {
                         let memtable_compaction_start = Instant::now();
                         let mut db_mutex_guard = db_state.guarded_db_fields.lock();
                         if db_mutex_guard.maybe_immutable_memtable.is_some() {
-                            CompactionWorker::compact_memtable(db_state, &mut db_mutex_guard);
+                            CompactionWorker::compact_memtable(
+                                db_state,
+                                &mut db_mutex_guard,
+                                true,
+                            );
 
                             // Notify waiting writers if there are any
                             db_state.background_work_finished_signal.notify_all();
